@@ -64,8 +64,14 @@ def run_cli(argv, cwd, env_extra=None):
 def make_scenario(rng, d):
     """-> (argv, expected outcome or None, key hint, tags, models list for the independence check or None)"""
     os.makedirs(d, exist_ok=True)
-    kind = rng.choice(["success", "success", "usage", "parse", "model", "model", "model", "argparse", "nofiles", "mixed-models"])
+    kind = rng.choice(["success", "success", "usage", "parse", "model", "model", "model", "argparse", "nofiles", "mixed-models",
+                       "dotted", "dotted", "ambiguous", "ambiguous"])
     target = rng.choice([None, None, "sympy", "casadi"])
+    special = None
+    if kind in ("dotted", "ambiguous"):
+        special, kind = kind, "model"
+        if special == "ambiguous":
+            target = "casadi"
     tags = {"scenario:" + kind, "target:" + (target or "none")}
     argv = []
 
@@ -134,6 +140,40 @@ def make_scenario(rng, d):
         if target:
             argv += ["-t", target]
         return argv + out_opt, ("return", nb), "parse-errors", tags, None
+    if special == "dotted":
+        # dotted model names sharing a package: P.Good* flatten, P.Bad* fail; flatten-only or sympy
+        if target == "casadi":
+            target = rng.choice([None, "sympy"])
+        tags.add("target:" + (target or "none"))
+        pk = "package P\n" + "".join("  " + l + "\n" for l in (GOOD["A"] + GOOD["B"]).splitlines()) + \
+             "  package Sub\n" + "".join("    " + l + "\n" for l in GOOD["G"].splitlines()) + "  end Sub;\n" + \
+             "".join("  " + l + "\n" for l in BAD_MODEL["BadRef"].splitlines()) + "end P;\n"
+        write("Pk.mo", pk)
+        goodn = rng.sample(["P.A", "P.B", "P.Sub.G"], rng.randint(1, 3))
+        badn = rng.sample(["P.BadRef", "P.Nowhere", "P.Sub.Nothing"], rng.randint(1, 2))
+        models = goodn + badn
+        rng.shuffle(models)
+        argv = ["Pk.mo"]
+        for m in models:
+            argv += ["-m", m]
+        if target:
+            argv += ["-t", target]
+        tags.add("dotted-model-names-in-one-package")
+        return argv + out_opt, ("return", len(badn)), "model-failures:%s:dotted-names" % (target or "flatten"), tags, models
+    if special == "ambiguous":
+        # several files with the model's name among the PATHs: ambiguous -> one error, whatever their number
+        ncopies = rng.randint(2, 4)
+        for i in range(ncopies):
+            os.makedirs(os.path.join(d, "d%d" % i), exist_ok=True)
+            write(os.path.join("d%d" % i, "A.mo"), GOOD["A"])
+        write("B.mo", GOOD["B"])
+        models = ["A", "B"] if rng.random() < 0.5 else ["B", "A"]
+        argv = ["."]
+        for m in models:
+            argv += ["-m", m]
+        argv += ["-t", "casadi"]
+        tags.add("ambiguous-model-file:%d-copies" % ncopies)
+        return argv, ("return", 1), "model-failures:casadi:ambiguous-file", tags, None
     # success / model / mixed-models
     good = rng.sample(sorted(GOOD), rng.randint(1, 3))
     bad = []
@@ -182,7 +222,12 @@ def one(ctx, rng, k):
     shutil.rmtree(d, ignore_errors=True)
     try:
         argv, expected, hint, tags, models = make_scenario(rng, d)
-        files = {f: open(os.path.join(d, f)).read() for f in sorted(os.listdir(d)) if f.endswith(".mo")}
+        files = {}
+        for root_, _, fs in os.walk(d):
+            for f in fs:
+                if f.endswith(".mo"):
+                    rel = os.path.relpath(os.path.join(root_, f), d)
+                    files[rel] = open(os.path.join(root_, f)).read()
         nt = expected != ("return", 0) or (models is not None)
         ctx.case({"files": files, "argv": argv}, nt, {"argv": argv, "files": sorted(files), "expected": expected} if k < 2 else None)
         for t in tags:
@@ -243,6 +288,7 @@ def replay(ctx, case):
     os.makedirs(os.path.join(d, "out"))
     os.makedirs(os.path.join(d, "empty"))
     for f, t in case["files"].items():
+        os.makedirs(os.path.dirname(os.path.join(d, f)), exist_ok=True)
         with open(os.path.join(d, f), "w") as fh:
             fh.write(t)
     got = run_cli(case["argv"], d)
